@@ -2322,6 +2322,17 @@ class Interp:
             r_ = ratpart_fraction(args)
             if r_ is not NotImplemented:
                 return r_
+        if name in ("min", "max") and not kwargs and args and (len(args) > 1 or isinstance(args[0], (list, tuple))) \
+                and _has_abs(list(args[0]) if len(args) == 1 else list(args)):
+            # the smallest / largest by the elements' own '<' (objects with __lt__, symbolic numbers): the first such one
+            seq = list(args[0]) if len(args) == 1 else list(args)
+            if not seq:
+                raise RaiseEx("ValueError", node)
+            best = seq[0]
+            for x_ in seq[1:]:
+                if (self.compare(ast.Lt, x_, best, node) if name == "min" else self.compare(ast.Gt, x_, best, node)):
+                    best = x_
+            return best
         if name in ("int", "float", "str", "abs", "bool", "min", "max", "sum", "round", "ord", "chr") \
                 and not _has_abs(args) and not kwargs:
             try:
